@@ -377,5 +377,8 @@ fn finish(m: &Merged, tier: Tier) -> Finish {
     f.extras.insert("outcomes".into(), json!(m.prefix_map("outcome:")));
     f.extras.insert("named_cases_rejected".into(), json!(m.c("named-cases-rejected")));
     f.assumptions = vec!["a panic is observed through catch_unwind (the harness is built with panic=unwind); a stack overflow or abort through the exit status of the shard process".into()];
+    if tier == Tier::Thorough {
+        crate::fuzzleg::attach(&mut f, "C06", 150);
+    }
     f
 }
